@@ -417,6 +417,12 @@ static inline MessageRef BuildSpecial(int s, std::string * name, int * flags)
    SPECIAL("SETDATA x=<4 KB raw field>", 0, ({ MessageRef p = l1::NewMsg(RICH_WHAT); std::string big(4096, 'b'); (void) p()->AddData("raw", B_RAW_TYPE, big.data(), (uint32)big.size()); l1::SetData("x", p); }))
    SPECIAL("SETDATA x=Rich(7) flags=quiet", SB, l1::SetData("x", Rich(7), l1::Flags(SETDATANODE_FLAG_QUIET)))
    SPECIAL("SETDATA xi/new=Rich(7) flags=add-to-index", SB, l1::SetData("xi/new", Rich(7), l1::Flags(SETDATANODE_FLAG_ADDTOINDEX)))
+   // names of the form I<n> are what the server itself generates for ordered children: a client may create them by hand, before or after the server does
+   SPECIAL("SETDATA xi/I0=Rich(7) (a name the server would generate next)", SB | RED, l1::SetData("xi/I0", Rich(7)))
+   SPECIAL("SETDATA xi/I1=Rich(7) (a generated-style name, one ahead)", SB, l1::SetData("xi/I1", Rich(7)))
+   SPECIAL("SETDATA xi/I0=Rich(7) flags=add-to-index", SB, l1::SetData("xi/I0", Rich(7), l1::Flags(SETDATANODE_FLAG_ADDTOINDEX)))
+   SPECIAL("SETDATA x/I0=Rich(7) (generated-style name under a node without index)", SB, l1::SetData("x/I0", Rich(7)))
+   SPECIAL("SETDATA I0=Rich(7) + I1=Rich(8) (generated-style names at session level)", SB, ({ MessageRef p = l1::SetData("I0", Rich(7)); l1::AddData(p, "I1", Rich(8)); p; }))
    SPECIAL("SETDATA nonesuch=Rich(7) flags=dont-create-node", 0, l1::SetData("nonesuch", Rich(7), l1::Flags(SETDATANODE_FLAG_DONTCREATENODE)))
    SPECIAL("SETDATA x=Rich(7) flags=dont-overwrite", 0, l1::SetData("x", Rich(7), l1::Flags(SETDATANODE_FLAG_DONTOVERWRITEDATA)))
    SPECIAL("SETDATA x=Rich(7) flags=enable-supercede", SB, l1::SetData("x", Rich(7), l1::Flags(SETDATANODE_FLAG_ENABLESUPERCEDE)))
